@@ -11,7 +11,7 @@ from libertem_blobfinder.common import correlation as cc
 PROP = "C07"
 LEAN_MODULE = "BlobfinderModel.Properties.C07"
 GEN_FILES = ["Eval"]
-FRAGMENTS = ["correlation_fft"]
+FRAGMENTS = ["getcorr_fft"]
 DRIVER = "drvcorr"
 RULE = ("correspondence: get_correlation on small frames of every parity combination (5..9 x 5..9) vs the model's exact "
         "direct circular sum with the generated shift kind (2^-30 relative), shape of the map; oracle: frames of shapes "
